@@ -88,3 +88,22 @@ Definition jx_valid (o : oasx) (v : bytes) : Prop :=
   (x_nullable o = true /\ v = w_null_lit) \/
   (js_type_ok (x_type o) v = true /\ js_min_ok (x_min o) v /\ js_max_ok (x_max o) v /\
    jx_len_ok (x_minlen o) (x_maxlen o) v /\ jx_multiple_ok (x_multiple o) v /\ jx_enum_ok (x_enum o) v).
+
+(* newAnyOf: the alternative becomes a mock node whose token is that of the type NAME (so the type keyword follows the
+   alternative, not the example); `const` lists the example of the node that carries the rule; the null type is a
+   Null node (enum [null]); "object" and "array" are the empty closed object and the empty closed array *)
+Definition alt_type (k : jkind) (rules : list rule) : option otype :=
+  if existsb is_enum rules then None
+  else match k with KInt => Some OInteger | KFloat => Some ONumber | KStr => Some OString | KBool => Some OBoolean | KNull => None end.
+Definition to_oasx_alt (cex : bytes) (l : leaf) : oasx :=
+  match l with
+  | LAny => mk_oasx None None None None None None None false
+  | Leaf KNull rules => mk_oasx None None None None None None (Some [w_null_lit]) (existsb is_nullable rules)
+  | Leaf k rules =>
+    mk_oasx (alt_type k rules) (first_min rules) (first_max rules)
+            (int64_opt (first_minlen rules)) (int64_opt (first_maxlen rules))
+            (multiple_opt (first_prec rules))
+            (if has_const rules then Some [cex] else match first_enum rules with Some (i :: r) => Some (i :: r) | _ => None end)
+            (existsb is_nullable rules)
+  end.
+
